@@ -13,7 +13,7 @@
 
 namespace vps {
 
-enum { K_PREEMPT = 4 };  // budget kind of the explorer used for preemptions (1..3 belong to the bus world)
+enum { K_PREEMPT = 4, K_TIMEOUT = 3 };  // K_TIMEOUT uses the late-request budget kind of the bus world, which has no late requests or faults under the scheduler; K_PREEMPT: budget kind of the explorer used for preemptions (1..3 belong to the bus world)
 
 struct ThreadCtl {
   int id;
@@ -61,6 +61,8 @@ class Sched {
   void switchTo(int next);
   bool enabled(const ThreadCtl* t) const;
   int pickNext(bool selfEnabled, bool yielding = false);
+  bool timeoutChoices = false;  // offer 'a timed wait expires although others can run' (budget kind K_TIMEOUT)
+  int timeoutsFired = 0;
   void blockAndYield();
   static void tramp(unsigned lo, unsigned hi);
   void finishCurrent();
